@@ -263,6 +263,8 @@ pub type VarlinkStream = Box<dyn Stream>;
 pub type ServerStream = Box<dyn Stream>;
 
 pub use crate::server::{listen, ListenConfig, Listener};
+#[cfg(varlink_rust_verif)]
+pub use crate::server::verif as verif_pool;
 
 #[macro_use]
 pub mod error;
